@@ -12,7 +12,7 @@ pid, which = sys.argv[1], sys.argv[2]
 extra = [a for a in sys.argv[3:] if not a.startswith("--")]
 wtname = next((a.split("=", 1)[1] for a in sys.argv[3:] if a.startswith("--dir=")), pid)
 src = Path(f"/tmp/wt/{wtname}/_seed/{which}")
-sid = f"{pid}-{which}" if wtname == pid else (f"{pid}-{wtname}{which}" if wtname[0] in "QUVWYZAD" else f"{pid}-{wtname[0]}{which}")
+sid = f"{pid}-{which}" if wtname == pid else (f"{pid}-{wtname}{which}" if wtname[0] in "QUVWYZADE" else f"{pid}-{wtname[0]}{which}")
 dst = Path("/verif/seeded") / sid
 demo = next(iter(list(src.glob("demo*.py")) + list(src.glob("*.py"))), None)
 assert (src / "patch.diff").exists() and demo, f"incomplete seed in {src}"
